@@ -42,11 +42,43 @@ fn main() {
     let mode = args[1].as_str();
     match modes::lookup(mode) {
         Some(f) => {
+            // every case runs on a worker thread under a watchdog: a case that does not return within the
+            // deadline is reported as `hang` and the process exits (a stuck thread cannot be stopped);
+            // the caller restarts after that line
+            let deadline = std::time::Duration::from_millis(
+                std::env::var("HARNESS_CASE_TIMEOUT_MS").ok().and_then(|v| v.parse().ok()).unwrap_or(5_000),
+            );
+            let (job_tx, job_rx) = std::sync::mpsc::channel::<String>();
+            let (res_tx, res_rx) = std::sync::mpsc::channel::<String>();
+            std::thread::Builder::new()
+                .stack_size(64 * 1024 * 1024)
+                .spawn(move || {
+                    for line in job_rx {
+                        let words: Vec<&str> = line.split_whitespace().collect();
+                        let res = wire::guarded(|| f(&words[..]));
+                        if res_tx.send(res).is_err() {
+                            break;
+                        }
+                    }
+                })
+                .unwrap();
+            let mut n = 0usize;
             for line in stdin.lock().lines() {
                 let line = line.unwrap();
-                let words: Vec<&str> = line.split_whitespace().collect();
-                let res = wire::guarded(|| f(&words[..]));
-                writeln!(out, "{}", res).unwrap();
+                job_tx.send(line).unwrap();
+                match res_rx.recv_timeout(deadline) {
+                    Ok(res) => writeln!(out, "{}", res).unwrap(),
+                    Err(_) => {
+                        writeln!(out, "hang").unwrap();
+                        out.flush().unwrap();
+                        std::process::exit(3);
+                    }
+                }
+                n += 1;
+                if n % 32 == 0 {
+                    // keep the output close to the progress: a crash is then pinned to one case
+                    out.flush().unwrap();
+                }
             }
         }
         None => match modes::lookup_batch(mode) {
